@@ -1,6 +1,13 @@
-import json,sys
+import json,sys,glob,os
 pid=sys.argv[1]; d=sys.argv[2]
 p=[json.loads(l) for l in open('/verif/properties.jsonl') if json.loads(l)['id']==pid][0]
+prev=[]
+for dd in sorted(glob.glob(f'/verif/seeded/{pid}-*')):
+    try: prev.append(json.load(open(os.path.join(dd,'meta.json'))).get('summary',''))
+    except Exception: pass
+AVOID=''
+if prev:
+    AVOID='\n\nEarlier contributors already produced the following changes for this property; yours must be DIFFERENT in mechanism and code site (do not redo or vary these):\n'+'\n'.join(f'  - {x}' for x in prev if x)+'\n'
 print(f"""You are working alone in a scratch git worktree of a Go repository at {d} (reduction: a stateful stream-processing engine in Go with its own LSM key-value store "dkv", write-ahead log, barrier-aligned distributed checkpoints, savepoints, watermarks and event-time timers). Work ONLY inside {d}. Do not read or touch /repo or /verif. Generated protobuf code is already copied into the worktree (untracked *.pb.go / *.connect.go files), so `go build ./...` works; always run Go with `export GOFLAGS=-mod=mod GOPROXY=off` and no network. Some package test binaries (connectors, rpc) need testing/synctest and do not compile: ignore those.
 
 Here is a semantic property the system is supposed to satisfy (id {pid}): "{p['title']}".
@@ -12,4 +19,5 @@ TASK: produce a change to the repository source that BREAKS this property while 
 
 Also provide a DEMONSTRATION: a Go test file (or small program) placed in the worktree that FAILS with your change and PASSES without it, exercising the real code (for concurrency-dependent breaks you may synchronise with channels/gating wrappers around interfaces the code already accepts, or use the hook package util/verifhook with `-tags verif` if the code has a hook at the right place: `verifhook.Set(func(label string, payload []any))` is called at `verifhook.At(...)` sites and may block).
 
+{AVOID}
 Produce TWO independent changes using different mechanisms / code sites if you can (SEED1, SEED2); one good one is better than two weak ones. For each N deliver in {d}/SEEDN/: patch.diff (output of `git diff` for tracked source files only — not the demo), the demo file (say in meta where it must be placed and the exact command to run it), and meta.json: {{"property": "{pid}", "summary": one sentence, "needs_to_manifest": what specific situation triggers it, "files_touched": [...], "demo_path_in_repo": "...", "demo_cmd": "...", "verified": the commands you ran and their outcomes with and without the change (existing suite green with the change; demo red with / green without)}}. Verify all of that yourself (use `git diff > /tmp/yourpatch && git apply -R /tmp/yourpatch` to test both ways; NEVER use `git stash`: the stash is shared between all worktrees of this repository and other people are working in sibling worktrees) before finishing, and leave the worktree with NO source change applied (git diff empty), only the SEED directories. Final message: a short summary of each seed.""")
